@@ -2,7 +2,7 @@
    Face3D_intersect_plane_key): along the line p + t v (v the direction of the ray whose crossings are sorted) the key is strictly
    increasing in t, so sorting by it orders the crossings along the line whatever the direction of the line in the plane's axes -
    in particular when the line runs along the plane's y axis, where the x coordinate is constant. *)
-From Coq Require Import QArith Lqa Lra Psatz.
+From Coq Require Import QArith Lqa.
 From LBG Require Import S_sortkeys.
 Open Scope Q_scope.
 
